@@ -1427,8 +1427,6 @@ Section Ins.
   End Monitor.
 
   (* ---------------------------------------------------------------- the builders' wrappers *)
-  Fixpoint wire_links (node : nid) (i : Z) (ws : list port) : list (port * port) :=
-    match ws with [] => [] | w :: r => (w, (node, i)) :: wire_links node (i + 1) r end.
   Definition shape4 (d : node_data) := (nd_op d, nd_parent d, nd_children d, nd_meta d).
 
   Lemma bump_shape4 (h h' : hugr) s t x :
@@ -1438,28 +1436,193 @@ Section Ins.
     destruct (get_node h' x) as [d'|], (get_node h x) as [d|]; cbn; try discriminate; [|reflexivity].
     intros [= H1 H2 H3 H4 _ _]. unfold shape4. congruence.
   Qed.
+  Lemma shape4_parent (h h' : hugr) x : option_map shape4 (get_node h' x) = option_map shape4 (get_node h x) ->
+    option_map nd_parent (get_node h' x) = option_map nd_parent (get_node h x).
+  Proof.
+    destruct (get_node h' x) as [d'|], (get_node h x) as [d|]; cbn; try discriminate; [|reflexivity].
+    unfold shape4. intros [= _ H _ _]. now rewrite H.
+  Qed.
 
-  Lemma wire_up_ok ws : forall (h : hugr) node i, Inv h -> get_node h node <> None -> (0 <= i)%Z ->
-    (forall w, In w ws -> get_node h (fst w) <> None /\ (-1 <= snd w)%Z) ->
-    exists h', wire_up h node i ws = (h', Ok) /\ Inv h' /\ root h' = root h /\
-      Permutation (q_links h') (q_links h ++ wire_links node i ws) /\
+  (* --- lists: membership, filters, first occurrences *)
+  Lemma mem_app {X} (eqb : X -> X -> bool) x (a b : list X) : mem eqb x (a ++ b) = mem eqb x a || mem eqb x b.
+  Proof. induction a as [|y r IH]; cbn; [reflexivity|]. now rewrite IH, orb_assoc. Qed.
+  Lemma mem_link_perm (L L' : list (port * port)) l : Permutation L L' -> mem link_eqb l L = mem link_eqb l L'.
+  Proof.
+    intros HP. destruct (mem_spec link_eqb link_eqb_spec l L) as [H|H];
+      destruct (mem_spec link_eqb link_eqb_spec l L') as [H'|H']; try reflexivity; exfalso.
+    - apply H'. eapply Permutation_in; eassumption.
+    - apply H. eapply Permutation_in; [symmetry|]; eassumption.
+  Qed.
+  Lemma filter_filter2 {X} (f g : X -> bool) (l : list X) :
+    filter f (filter g l) = filter (fun x => g x && f x) l.
+  Proof.
+    induction l as [|x r IH]; cbn; [reflexivity|]. destruct (g x); cbn; [destruct (f x); now rewrite IH|exact IH].
+  Qed.
+  Lemma dedup_incl {X} (eqb : X -> X -> bool) (l : list X) x : In x (dedup eqb l) -> In x l.
+  Proof.
+    revert x. induction l as [|y r IH]; intros x; cbn; [tauto|]. intros [->|H]; [now left|].
+    apply filter_In in H. right. apply IH, H.
+  Qed.
+
+  Definition is_ord (l : port * port) : Prop := snd (snd l) = (-1)%Z.
+  Definition notin (L : list (port * port)) (l : port * port) : bool := negb (mem link_eqb l L).
+
+  (* the sequential "add the order link unless it is there, then add the wire" against the set formulation *)
+  Lemma order_step_lists (L C X : list (port * port)) (wl : port * port) :
+    (C = [] \/ exists l, C = [l]) -> (0 <= snd (snd wl))%Z -> (forall y, In y X -> is_ord y) ->
+    filter (notin L) (dedup link_eqb (C ++ X)) =
+    filter (notin L) C ++ filter (notin (L ++ filter (notin L) C ++ [wl])) (dedup link_eqb X).
+  Proof.
+    intros HC Hwl HX.
+    assert (Hne : forall y, In y (dedup link_eqb X) -> link_eqb y wl = false).
+    { intros y Hy. apply dedup_incl, HX in Hy. unfold is_ord in Hy.
+      destruct (link_eqb_spec y wl) as [->|]; [lia|reflexivity]. }
+    destruct HC as [->|(l & ->)].
+    - cbn [app filter]. apply filter_ext_in. intros y Hy. unfold notin. rewrite mem_app. cbn [mem].
+      now rewrite (Hne y Hy), !orb_false_r.
+    - cbn [app dedup filter]. rewrite filter_filter2.
+      assert (En : notin L l = negb (mem link_eqb l L)) by reflexivity. rewrite En.
+      destruct (mem link_eqb l L) eqn:El; cbn [negb app].
+      + apply filter_ext_in. intros y Hy. unfold notin. rewrite mem_app. cbn [mem]. rewrite (Hne y Hy), !orb_false_r.
+        destruct (link_eqb_spec y l) as [->|]; cbn; [now rewrite El|reflexivity].
+      + f_equal. apply filter_ext_in. intros y Hy. unfold notin. rewrite !mem_app. cbn [mem].
+        rewrite (Hne y Hy), !orb_false_r.
+        destruct (link_eqb y l), (mem link_eqb y L); reflexivity.
+  Qed.
+
+  Lemma add_order_link_pt (h : hugr) a b L : Inv h -> get_node h a <> None -> get_node h b <> None ->
+    Permutation (q_links h) L ->
+    exists h', add_order_link h a b = (h', Ok) /\ Inv h' /\ root h' = root h /\
+      Permutation (q_links h') (L ++ filter (notin L) [((a, (-1)%Z), (b, (-1)%Z))]) /\
       forall x, option_map shape4 (get_node h' x) = option_map shape4 (get_node h x).
   Proof.
-    induction ws as [|w rest IH]; intros h node i HI Hn Hi Hws; cbn [wire_up wire_links].
+    intros HI Ha Hb HP. unfold add_order_link.
+    assert (Hh : has_link h (a, (-1)%Z) (b, (-1)%Z) = mem link_eqb ((a, (-1)%Z), (b, (-1)%Z)) L).
+    { unfold has_link, linked_out. apply has_link_refines; [apply HI|exact HP]. }
+    rewrite Hh. cbn [filter]. unfold notin. destruct (mem link_eqb ((a, (-1)%Z), (b, (-1)%Z)) L); cbn [negb].
     - exists h. split; [reflexivity|]. split; [assumption|]. split; [reflexivity|]. split; [now rewrite app_nil_r|reflexivity].
-    - destruct (Hws w ltac:(now left)) as [Hw Hwo].
-      destruct (add_link_pt h w (node, i) HI Hw Hn Hwo) as (h1 & Hadd & HI1 & Hr1 & HP1 & Hpt1); [cbn; lia|].
-      rewrite Hadd.
-      assert (Hsh1 : forall x, option_map shape4 (get_node h1 x) = option_map shape4 (get_node h x))
-        by (intros x; eapply bump_shape4; apply Hpt1).
-      assert (Hlive1 : forall x, get_node h x <> None -> get_node h1 x <> None).
-      { intros x Hx E. specialize (Hsh1 x). rewrite E in Hsh1. destruct (get_node h x); [discriminate|congruence]. }
-      destruct (IH h1 node (i + 1)%Z HI1 (Hlive1 _ Hn) ltac:(lia)) as (h' & Hw' & HI' & Hr' & HP' & Hsh').
-      { intros w0 Hin. destruct (Hws w0 ltac:(now right)) as [H1 H2]. split; [now apply Hlive1|assumption]. }
-      exists h'. split; [exact Hw'|]. split; [exact HI'|]. split; [now rewrite Hr'|]. split.
-      + rewrite HP', HP1, <- app_assoc. reflexivity.
-      + intros x. now rewrite Hsh', Hsh1.
+    - destruct (add_link_pt h (a, (-1)%Z) (b, (-1)%Z) HI Ha Hb) as (h1 & Hadd & HI1 & Hr1 & HP1 & Hpt1); cbn; try lia.
+      exists h1. split; [exact Hadd|]. split; [exact HI1|]. split; [exact Hr1|]. split.
+      + rewrite HP1. now apply Permutation_app_tail.
+      + intros x. eapply bump_shape4. apply Hpt1.
   Qed.
+
+  (* --- _ancestral_sibling reads parent pointers only, and on the nodes A had it walks as the specification does *)
+  Section Wires.
+    Variables (A : hugr) (p r' : nid).
+    (* a state in which the nodes of A have the parents they had and r' hangs under p *)
+    Definition Ctx (h : hugr) : Prop :=
+      (forall x d, get_node A x = Some d -> option_map nd_parent (get_node h x) = Some (nd_parent d)) /\
+      option_map nd_parent (get_node h r') = Some (Some p).
+    Lemma Ctx_step h h' : (forall x, option_map shape4 (get_node h' x) = option_map shape4 (get_node h x)) ->
+      Ctx h -> Ctx h'.
+    Proof.
+      intros Hs [H1 H2]. split.
+      - intros x d E. rewrite (shape4_parent _ _ _ (Hs x)). now apply H1.
+      - now rewrite (shape4_parent _ _ _ (Hs r')).
+    Qed.
+    Lemma Ctx_len h : Ctx h -> length (a_nodes (abs A)) <= length (nodes h).
+    Proof.
+      intros [H1 _]. rewrite <- (map_length fst), <- (seq_length (length (nodes h)) 0).
+      apply NoDup_incl_length; [destruct (Rep_abs A) as (_ & Hnd & _); exact Hnd|].
+      intros x Hx. apply abs_keys in Hx. destruct (get_node A x) as [d|] eqn:E; [|congruence].
+      specialize (H1 x d E). destruct (get_node h x) as [d'|] eqn:E'; [|discriminate].
+      apply in_seq. pose proof (get_node_lt _ _ _ E'). lia.
+    Qed.
+    Lemma walk_agrees h sp a : Ctx h -> forall f t, sibling_ancestor f (abs A) sp t = Some a ->
+      forall f', f <= f' -> anc_sib_from f' h (Some sp) t = inl (Some a) /\ get_node A a <> None.
+    Proof.
+      intros [H1 _]. induction f as [|f IH]; intros t; cbn [sibling_ancestor]; [discriminate|].
+      rewrite abs_get. destruct (get_node A t) as [d|] eqn:Ed; cbn [option_map]; [|discriminate].
+      cbn [anode_of a_parent]. destruct (nd_parent d) as [tp|] eqn:Ep; [|discriminate].
+      intros H [|f'] Hle; [lia|]. cbn [anc_sib_from]. specialize (H1 t d Ed).
+      destruct (get_node h t) as [d'|]; [|discriminate]. cbn in H1. injection H1 as ->. rewrite Ep.
+      cbn [option_eqb]. destruct (Nat.eqb tp sp).
+      - injection H as <-. split; [reflexivity|congruence].
+      - apply IH; [exact H|lia].
+    Qed.
+
+    Lemma wire_up_port_ok (h : hugr) i w L : get_node A r' = None -> Inv h -> Ctx h -> (0 <= i)%Z ->
+      Permutation (q_links h) L ->
+      (match wire_anchor (abs A) p (fst w) with Some _ => Z.leb (-1) (snd w) | None => false end) = true ->
+      exists h', wire_up_port h r' i w = (h', Ok) /\ Inv h' /\ root h' = root h /\
+        Permutation (q_links h') (L ++ filter (notin L) (order_of_wire (abs A) p w) ++ [(w, (r', i))]) /\
+        forall x, option_map shape4 (get_node h' x) = option_map shape4 (get_node h x).
+    Proof.
+      intros Hfresh HI HC Hi HP Hg. pose proof HC as [H1 H2].
+      unfold wire_anchor in Hg. unfold order_of_wire, wire_anchor. rewrite abs_get in *.
+      destruct (get_node A (fst w)) as [ds|] eqn:Eds; cbn [option_map] in *; [|discriminate].
+      cbn [anode_of a_parent] in *. destruct (nd_parent ds) as [sp|] eqn:Esp; [|discriminate].
+      pose proof (H1 _ _ Eds) as Hs. destruct (get_node h (fst w)) as [ds'|] eqn:Eds'; [|discriminate].
+      cbn in Hs. injection Hs as Hs. rewrite Esp in Hs.
+      destruct (get_node h r') as [dr|] eqn:Edr; [|discriminate]. cbn in H2. injection H2 as H2.
+      assert (Hlw : get_node h (fst w) <> None) by congruence.
+      assert (Hlr : get_node h r' <> None) by congruence.
+      unfold wire_up_port, ancestral_sibling. rewrite Eds', Hs. cbn [anc_sib_from]. rewrite Edr, H2. cbn [option_eqb].
+      rewrite (Nat.eqb_sym p sp). destruct (Nat.eqb sp p) eqn:Epp.
+      - (* a sibling of the inserted root *)
+        rewrite Nat.eqb_refl. apply Z.leb_le in Hg.
+        destruct (add_link_pt h w (r', i) HI Hlw Hlr Hg) as (h1 & Hadd & HI1 & Hr1 & HP1 & Hpt1); [cbn; lia|].
+        exists h1. split; [exact Hadd|]. split; [exact HI1|]. split; [exact Hr1|]. split.
+        + cbn [filter app]. rewrite HP1. now apply Permutation_app_tail.
+        + intros x. eapply bump_shape4. apply Hpt1.
+      - (* from an enclosing region *)
+        destruct (sibling_ancestor (length (a_nodes (abs A))) (abs A) sp p) as [a|] eqn:Ea; cbn [option_map] in *;
+          [|discriminate].
+        apply Z.leb_le in Hg.
+        destruct (walk_agrees h sp a HC _ _ Ea (length (nodes h)) (Ctx_len h HC)) as [Hw Hla]. rewrite Hw.
+        assert (Har : Nat.eqb a r' = false) by (apply Nat.eqb_neq; congruence). rewrite Har.
+        assert (Hlah : get_node h a <> None).
+        { destruct (get_node A a) as [da|] eqn:Eda; [|congruence]. specialize (H1 _ _ Eda).
+          destruct (get_node h a); [discriminate|discriminate]. }
+        destruct (add_order_link_pt h (fst w) a L HI Hlw Hlah HP) as (h1 & Hadd & HI1 & Hr1 & HP1 & Hs1).
+        rewrite Hadd.
+        assert (Hlw1 : get_node h1 (fst w) <> None).
+        { intros E. specialize (Hs1 (fst w)). rewrite E, Eds' in Hs1. discriminate. }
+        assert (Hlr1 : get_node h1 r' <> None).
+        { intros E. specialize (Hs1 r'). rewrite E, Edr in Hs1. discriminate. }
+        destruct (add_link_pt h1 w (r', i) HI1 Hlw1 Hlr1 Hg) as (h2 & Hadd2 & HI2 & Hr2 & HP2 & Hpt2); [cbn; lia|].
+        exists h2. split; [exact Hadd2|]. split; [exact HI2|]. split; [congruence|]. split.
+        + rewrite HP2, HP1, <- app_assoc. reflexivity.
+        + intros x. rewrite (bump_shape4 _ _ _ _ _ (Hpt2 x)). apply Hs1.
+    Qed.
+
+    Lemma order_of_wire_shape w : order_of_wire (abs A) p w = [] \/ exists l, order_of_wire (abs A) p w = [l].
+    Proof. unfold order_of_wire. destruct (wire_anchor (abs A) p (fst w)) as [[a|]|]; eauto. Qed.
+    Lemma order_of_wire_ord ws y : In y (flat_map (order_of_wire (abs A) p) ws) -> is_ord y.
+    Proof.
+      intros H. apply in_flat_map in H. destruct H as (w & _ & H). unfold order_of_wire in H.
+      destruct (wire_anchor (abs A) p (fst w)) as [[a|]|]; try destruct H as [<-|[]]; try destruct H. reflexivity.
+    Qed.
+
+    Lemma wire_up_ok ws : forall (h : hugr) i L, get_node A r' = None -> Inv h -> Ctx h -> (0 <= i)%Z ->
+      Permutation (q_links h) L -> wires_guard (abs A) p ws = true ->
+      exists h', wire_up h r' i ws = (h', Ok) /\ Inv h' /\ root h' = root h /\
+        Permutation (q_links h')
+                    (L ++ wire_links r' i ws ++
+                     filter (notin L) (dedup link_eqb (flat_map (order_of_wire (abs A) p) ws))) /\
+        forall x, option_map shape4 (get_node h' x) = option_map shape4 (get_node h x).
+    Proof.
+      induction ws as [|w rest IH]; intros h i L Hfresh HI HC Hi HP Hg; cbn [wire_up wire_links flat_map].
+      - exists h. split; [reflexivity|]. split; [assumption|]. split; [reflexivity|].
+        split; [cbn; now rewrite app_nil_r|reflexivity].
+      - cbn [wires_guard forallb] in Hg. apply andb_true_iff in Hg. destruct Hg as [Hgw Hgr].
+        destruct (wire_up_port_ok h i w L Hfresh HI HC Hi HP Hgw) as (h1 & Hwp & HI1 & Hr1 & HP1 & Hs1).
+        rewrite Hwp.
+        destruct (IH h1 (i + 1)%Z _ Hfresh HI1 (Ctx_step _ _ Hs1 HC) ltac:(lia) HP1 Hgr)
+          as (h' & Hw' & HI' & Hr' & HP' & Hs').
+        exists h'. split; [exact Hw'|]. split; [exact HI'|]. split; [congruence|]. split.
+        + rewrite HP'.
+          rewrite (order_step_lists L (order_of_wire (abs A) p w) (flat_map (order_of_wire (abs A) p) rest)
+                                    (w, (r', i)) (order_of_wire_shape w) ltac:(cbn; lia) (order_of_wire_ord rest)).
+          rewrite <- !app_assoc. apply Permutation_app_head.
+          set (C := filter (notin L) (order_of_wire (abs A) p w)).
+          set (Y := filter _ (dedup link_eqb (flat_map (order_of_wire (abs A) p) rest))).
+          cbn [app]. rewrite (Permutation_app_comm C). cbn [app]. apply perm_skip.
+          rewrite <- !app_assoc. apply Permutation_app_head, Permutation_app_comm.
+        + intros x. now rewrite Hs', Hs1.
+    Qed.
+  End Wires.
 
   Lemma update_port_count_ok (h : hugr) n ki ko : get_node h n <> None ->
     exists h', update_port_count h n ki ko = (h', Ok) /\ links h' = links h /\ root h' = root h /\
@@ -1483,11 +1646,73 @@ Section Ins.
   Qed.
 
   (* insert_nested / insert_cfg / insert_conditional / insert_tail_loop: the insertion of C08_insert_iso_and_frame,
-     then exactly one link per wire into the image of the root at offsets 0, 1, ...; operations, hierarchy and
-     metadata of all nodes are those of the plain insertion (only port counts may be re-declared) *)
+     then exactly the links wires_extra of spec/InsertS.v computed on A as it was: one link per wire into the image
+     of the root at offsets 0, 1, ..., and, for the wires that come from an enclosing region, the state order link
+     from the wire's source to the ancestor of the inserted root that is its sibling (once, and only if A did not
+     have it); operations, hierarchy and metadata of all nodes are those of the plain insertion (only port counts
+     may be re-declared) *)
   Theorem insert_wrappers_attach_wires (A B : hugr) (p : nid) (ws : list port) ki ko :
+    Inv A -> Inv B -> WF B -> get_node A p <> None -> wires_guard (abs A) p ws = true ->
+    exists A' A'' m r',
+      insert_hugr A B (Some p) = (A', m, Ok) /\ IsoFrame A B p m A' /\ mget m (root B) = Some r' /\
+      insert_wrapped A B p ws ki ko = (A'', m, Ok) /\ root A'' = root A /\
+      Permutation (q_links A'') (q_links A' ++ wires_extra (abs A) p r' ws) /\
+      forall x, option_map shape4 (get_node A'' x) = option_map shape4 (get_node A' x).
+  Proof.
+    intros HIA HIB HWF HpA Hws.
+    destruct (insert_ok A B (Some p) HIA HIB HWF HpA) as (A' & m & Hins & HI' & HIF). cbn in HIF.
+    pose proof HIB as (_ & _ & HCB & ((rb & Erb & Prb) & _)).
+    assert (Hr : exists r', mget m (root B) = Some r').
+    { destruct (mget m (root B)) as [r'|] eqn:E; [eauto|]. exfalso. apply (proj2 (if_dom _ _ _ _ _ HIF (root B))); congruence. }
+    destruct Hr as (r' & Er).
+    destruct (if_copy _ _ _ _ _ HIF _ _ _ Er Erb) as (dr & Edr & _ & _ & _ & Pdr & _). rewrite Prb in Pdr.
+    pose proof (if_fresh _ _ _ _ _ HIF _ _ Er) as Hfresh.
+    assert (HC : Ctx A p r' A').
+    { split; [|now rewrite Edr; cbn; rewrite Pdr]. intros x d E. rewrite (if_old _ _ _ _ _ HIF _ _ E). cbn.
+      now destruct (Nat.eqb x p). }
+    destruct (wire_up_ok A p r' ws A' 0%Z (q_links A') Hfresh HI' HC ltac:(lia) (Permutation_refl _) Hws)
+      as (A2 & Hwu & HI2 & Hr2 & HP2 & Hsh2).
+    assert (Hlive2 : get_node A2 r' <> None).
+    { intros E. specialize (Hsh2 r'). rewrite E, Edr in Hsh2. discriminate. }
+    destruct (update_port_count_ok A2 r' ki ko Hlive2) as (A3 & Hup & Hl3 & Hr3 & Hsh3).
+    exists A', A3, m, r'. split; [exact Hins|]. split; [exact HIF|]. split; [exact Er|].
+    unfold insert_wrapped. rewrite Hins, Er, Hwu, Hup. split; [reflexivity|].
+    split; [now rewrite Hr3, Hr2, (if_root _ _ _ _ _ HIF)|]. split.
+    - unfold q_links at 1. rewrite Hl3. fold (q_links A2). rewrite HP2. apply Permutation_app_head.
+      unfold wires_extra, wires_order. apply Permutation_app_head.
+      (* a candidate order link joins two nodes of A: it is a link of A' iff it is a link of A *)
+      match goal with |- Permutation ?a ?b => assert (E : a = b); [|rewrite E; reflexivity] end.
+      apply filter_ext_in. intros y Hy. apply dedup_incl, in_flat_map in Hy. destruct Hy as (w & _ & Hy).
+      unfold notin. f_equal. rewrite (mem_link_perm _ _ y (if_links _ _ _ _ _ HIF)), mem_app.
+      cbn [abs a_links]. fold (q_links A).
+      destruct (mem_spec link_eqb link_eqb_spec y (map (mapl m) (q_links B))) as [Hin|]; [|now rewrite orb_false_r].
+      exfalso. apply in_map_iff in Hin. destruct Hin as ([s t] & <- & Hin).
+      destruct (HCB s t Hin) as ((bs & Ebs & _) & _).
+      destruct (mget m (fst s)) as [c'|] eqn:Em; [|apply (proj2 (if_dom _ _ _ _ _ HIF (fst s))); congruence].
+      pose proof (if_fresh _ _ _ _ _ HIF _ _ Em) as Hc'.
+      unfold order_of_wire, wire_anchor in Hy. rewrite abs_get in Hy.
+      destruct (get_node A (fst w)) as [ds|] eqn:Eds; cbn [option_map] in Hy; [|destruct Hy].
+      destruct (a_parent (anode_of ds)) as [sp|]; [|destruct Hy]. destruct (Nat.eqb sp p); [destruct Hy|].
+      destruct (sibling_ancestor _ _ sp p) as [a|]; cbn [option_map] in Hy; [|destruct Hy].
+      destruct Hy as [Hy|[]]. unfold mapl, mapp, mapn in Hy. cbn [fst snd] in Hy. rewrite Em in Hy.
+      injection Hy as Hy _. congruence.
+    - intros x. now rewrite Hsh3, Hsh2.
+  Qed.
+
+  (* wires from siblings only: nothing but one link per wire (the earlier statement of this theorem) *)
+  Lemma wires_extra_local (g : agraph) (p r' : nid) (ws : list port) :
+    (forall w, In w ws -> exists d, aget (a_nodes g) (fst w) = Some d /\ a_parent d = Some p) ->
+    wires_extra g p r' ws = wire_links r' 0 ws.
+  Proof.
+    intros H. unfold wires_extra, wires_order.
+    assert (E : flat_map (order_of_wire g p) ws = []).
+    { induction ws as [|w r IH]; [reflexivity|]. cbn [flat_map]. rewrite IH by (intros; apply H; now right).
+      destruct (H w ltac:(now left)) as (d & Ed & Ep). unfold order_of_wire, wire_anchor. now rewrite Ed, Ep, Nat.eqb_refl. }
+    rewrite E. cbn. now rewrite app_nil_r.
+  Qed.
+  Theorem insert_wrappers_attach_sibling_wires (A B : hugr) (p : nid) (ws : list port) ki ko :
     Inv A -> Inv B -> WF B -> get_node A p <> None ->
-    (forall w, In w ws -> get_node A (fst w) <> None /\ (-1 <= snd w)%Z) ->
+    (forall w, In w ws -> (exists d, get_node A (fst w) = Some d /\ nd_parent d = Some p) /\ (-1 <= snd w)%Z) ->
     exists A' A'' m r',
       insert_hugr A B (Some p) = (A', m, Ok) /\ IsoFrame A B p m A' /\ mget m (root B) = Some r' /\
       insert_wrapped A B p ws ki ko = (A'', m, Ok) /\ root A'' = root A /\
@@ -1495,22 +1720,12 @@ Section Ins.
       forall x, option_map shape4 (get_node A'' x) = option_map shape4 (get_node A' x).
   Proof.
     intros HIA HIB HWF HpA Hws.
-    destruct (insert_ok A B (Some p) HIA HIB HWF HpA) as (A' & m & Hins & HI' & HIF). cbn in HIF.
-    pose proof HIB as (_ & _ & _ & ((rb & Erb & _) & _)).
-    assert (Hr : exists r', mget m (root B) = Some r').
-    { destruct (mget m (root B)) as [r'|] eqn:E; [eauto|]. exfalso. apply (proj2 (if_dom _ _ _ _ _ HIF (root B))); congruence. }
-    destruct Hr as (r' & Er).
-    destruct (if_copy _ _ _ _ _ HIF _ _ _ Er Erb) as (dr & Edr & _).
-    destruct (wire_up_ok ws A' r' 0%Z HI' ltac:(congruence) ltac:(lia)) as (A2 & Hwu & HI2 & Hr2 & HP2 & Hsh2).
-    { intros w Hin. destruct (Hws w Hin) as [H1 H2]. split; [|assumption].
-      destruct (get_node A (fst w)) as [d|] eqn:Ed; [|congruence]. rewrite (if_old _ _ _ _ _ HIF _ _ Ed). discriminate. }
-    assert (Hlive2 : get_node A2 r' <> None).
-    { intros E. specialize (Hsh2 r'). rewrite E, Edr in Hsh2. discriminate. }
-    destruct (update_port_count_ok A2 r' ki ko Hlive2) as (A3 & Hup & Hl3 & Hr3 & Hsh3).
-    exists A', A3, m, r'. split; [exact Hins|]. split; [exact HIF|]. split; [exact Er|].
-    unfold insert_wrapped. rewrite Hins, Er, Hwu, Hup. split; [reflexivity|].
-    split; [now rewrite Hr3, Hr2, (if_root _ _ _ _ _ HIF)|]. split.
-    - unfold q_links at 1. rewrite Hl3. exact HP2.
-    - intros x. now rewrite Hsh3, Hsh2.
+    assert (Hloc : forall w, In w ws -> exists d, aget (a_nodes (abs A)) (fst w) = Some d /\ a_parent d = Some p).
+    { intros w Hin. destruct (Hws w Hin) as [(d & Ed & Ep) _]. exists (anode_of d). rewrite abs_get, Ed. now split. }
+    assert (Hg : wires_guard (abs A) p ws = true).
+    { apply forallb_forall. intros w Hin. destruct (Hloc w Hin) as (d & Ed & Ep). unfold wire_anchor.
+      rewrite Ed, Ep, Nat.eqb_refl. apply Z.leb_le. apply (Hws w Hin). }
+    destruct (insert_wrappers_attach_wires A B p ws ki ko HIA HIB HWF HpA Hg) as (A' & A'' & m & r' & H).
+    exists A', A'', m, r'. now rewrite (wires_extra_local (abs A) p r' ws Hloc) in H.
   Qed.
 End Ins.
